@@ -11,16 +11,16 @@ import (
 )
 
 func init() {
-	register(&Rule{ID: "C02.R1", Min: 60,
+	register(&Rule{ID: "C02.R1", Min: 50,
 		Text: "closed flag set: the declared Condition constants are 12 distinct single bits, and every Condition-typed value in the package is built only from those constants, zero, other Condition values and the operators | & &^ ^ (no shifts, arithmetic or integer conversions outside Condition.String's bit scan): no 13th bit can be returned",
 		Run:  ruleClosedFlags})
-	register(&Rule{ID: "C02.R2", Min: 8,
+	register(&Rule{ID: "C02.R2", Min: 11,
 		Text: "implications by construction: a constant with Inexact also carries Rounded, or Rounded is or-ed on every path through the site, or the result becomes infinite; a constant with Overflow also carries Inexact or SystemOverflow (or Inexact is already set); Underflow is raised only together with SystemUnderflow, under the test Inexact∧Subnormal, or inside negateOverflowFlags together with Subnormal",
 		Run:  ruleFlagImplications})
-	register(&Rule{ID: "C02.R3", Min: 30,
+	register(&Rule{ID: "C02.R3", Min: 84,
 		Text: "no flag is dropped: every Condition produced by a callee flows into the returned Condition (through | & &^ φ, goError, negateOverflowFlags, ErrDecimal.update) or into a branch condition; discards are limited to a frozen, reasoned table",
 		Run:  ruleNoFlagDropped})
-	register(&Rule{ID: "C02.R4", Min: 7,
+	register(&Rule{ID: "C02.R4", Min: 6,
 		Text: "division conditions sit under the guards the specification gives them: DivisionUndefined only under IsZero(x)∧IsZero(y); DivisionByZero only under IsZero(y)∧¬IsZero(x); DivisionImpossible only under NumDigits(quotient) > c.Precision; and the functions that must raise them still do",
 		Run:  ruleDivisionGuards})
 }
